@@ -186,7 +186,36 @@ func (c *checker) instanceCheck(cs *caseInfo, t *truth, v *ctfe.ValidatedLogConf
 	}
 	r.Add("endpoint_sets_checked", 1)
 
-	// 2. what get-sth serves along a growth history of the backend
+	// 2. get-roots serves exactly the certificates of the configured roots files
+	{
+		w := httptest.NewRecorder()
+		pan, msg, stack := enum.Catch(func() {
+			inst.Handlers[pfx+"/ct/v1/get-roots"].ServeHTTP(w, httptest.NewRequest(http.MethodGet, "http://log.example"+pfx+"/ct/v1/get-roots", nil))
+		})
+		if pan {
+			c.violation("panic in get-roots at "+panicSite(stack)+": "+msg, "get-roots panicked: "+msg+"\n"+stack, cs, "get-roots", "go", "panic", "")
+			return
+		}
+		var body struct {
+			Certificates [][]byte `json:"certificates"`
+		}
+		err := json.Unmarshal(w.Body.Bytes(), &body)
+		okRoots := w.Code == 200 && err == nil && len(body.Certificates) == len(t.rootCerts)
+		for _, i := range t.rootCerts {
+			found := false
+			for _, c := range body.Certificates {
+				found = found || bytes.Equal(c, mat.rootDER[i])
+			}
+			okRoots = okRoots && found
+		}
+		if !okRoots {
+			c.violation("get-roots does not serve the configured roots", fmt.Sprintf("status %d, %d certificates, expected roots %v (err=%v)", w.Code, len(body.Certificates), t.rootCerts, err),
+				cs, "get-roots", "go", w.Body.String(), fmt.Sprint(t.rootCerts))
+			return
+		}
+	}
+
+	// 3. what get-sth serves along a growth history of the backend
 	sthPath := pfx + "/ct/v1/get-sth"
 	serve := func() (g gotSTH, ok bool) {
 		var e error
